@@ -360,6 +360,11 @@ class SymEval:
                 elif isinstance(t, ast.Name):
                     st.env.pop(t.id, None)
             return st
+        if hasattr(ast, "Match") and isinstance(s, ast.Match):
+            chain = _desugar_match(s)
+            if chain is not None:
+                st.env["__match_subject__"] = self.expr(s.subject, st)
+                return self.block(chain, st)
         if isinstance(s, ast.With):
             self.unsupported.append(s)
             for it in s.items:
@@ -1340,3 +1345,37 @@ def _walk_no_nested_funcs(fn):
         if isinstance(n, (ast.FunctionDef, ast.AsyncFunctionDef, ast.Lambda, ast.ClassDef)):
             continue
         todo.extend(ast.iter_child_nodes(n))
+
+
+def _desugar_match(s):
+    """`match subject:` whose cases are literal values, `|` alternatives of them, optional guards and a final wildcard -> an if / elif chain on a
+    temporary holding the subject (patterns that bind or destructure are not handled: None)."""
+    subj = ast.Name(id="__match_subject__", ctx=ast.Load())
+
+    def test_of(pat):
+        if isinstance(pat, ast.MatchValue):
+            return ast.Compare(left=subj, ops=[ast.Eq()], comparators=[pat.value])
+        if isinstance(pat, ast.MatchSingleton):
+            return ast.Compare(left=subj, ops=[ast.Is()], comparators=[ast.Constant(value=pat.value)])
+        if isinstance(pat, ast.MatchOr):
+            ts = [test_of(p) for p in pat.patterns]
+            return None if any(t is None for t in ts) else ast.BoolOp(op=ast.Or(), values=ts)
+        if isinstance(pat, ast.MatchAs) and pat.pattern is None and pat.name is None:
+            return ast.Constant(value=True)
+        return None
+
+    node = None
+    for case in reversed(s.cases):
+        t = test_of(case.pattern)
+        if t is None:
+            return None
+        if case.guard is not None:
+            t = ast.BoolOp(op=ast.And(), values=[t, case.guard])
+        new = ast.If(test=t, body=case.body, orelse=[node] if node is not None else [])
+        ast.copy_location(new, case.body[0] if case.body else s)
+        for x in ast.walk(t):
+            if not hasattr(x, "lineno"):
+                ast.copy_location(x, case.pattern)
+        node = new
+    ast.fix_missing_locations(node) if node is not None else None
+    return [node] if node is not None else []
